@@ -163,8 +163,8 @@ def typed_case(ctx, L, cli, ex):
     fmt_in = data.draw(st.sampled_from(["binary", "hex"]))
     fmt_out = data.draw(st.sampled_from(["pretty", "events", "binary"]))
     content = case.data if fmt_in == "binary" else data.draw(containers.hex_text(case.data))[0].encode()
-    if case.enc:
-        return  # the tool cannot be told that a response's first parameter is encrypted
+    if case.enc or (case.cc is not None and case.cc not in L.cc_by_code):
+        return  # the tool cannot be told that a response's first parameter is encrypted, nor an unknown command code
     args = ["convert", cli.file(content), "--in", fmt_in, "--out", fmt_out, "--type", case.type]
     cc = None
     if case.type == "Response":
